@@ -1169,7 +1169,12 @@ pub async fn start_rpc_server(
 
 #[cfg(feature = "verif-hooks")]
 pub(crate) fn verif_rpc_methods(engine: BRC20ProgEngine) -> jsonrpsee::Methods {
-    RpcServer { engine }.into_rpc().into()
+    let mut module = RpcServer { engine }.into_rpc();
+    // verification-only probe, never registered by `start()`
+    module
+        .register_method("verif_state", |_, ctx, _| ctx.engine.verif_state())
+        .expect("verif_state");
+    module.into()
 }
 
 #[cfg(feature = "verif-hooks")]
